@@ -432,7 +432,8 @@ def corr_core(prop, parts):
                                 "joins with their reused tables, per-sample operators, count and accumulator tables - evaluated inside Coq on whole "
                                 "nested queries (depth up to 4: + - and the comparisons with on/ignoring/group_left/group_right/bool, unary minus, abs, "
                                 "arithmetic and comparisons with a literal, count/sum/max/min/group by/without, count/last/max/min/sum_over_time, "
-                                "changes, resets, present_over_time of x[d] offset o) vs the engine's result; values are multiples of 1/4 "
+                                "changes, resets, present_over_time of x[d] offset o; @ t / @ start() / @ end() on vector and matrix selectors with the "
+                                "step-invariant operator above them) vs the engine's result; values are multiples of 1/4 "
                                 "carried as integers", 30, 300, shards_quick=8, shards_thorough=16))
     if "agg" in parts:
         cs.append(_corr_generic("aggcases", prop, "Agg.group_labels / assign_groups / aggregate (count table) + Select.select_step vs the engine "
@@ -514,6 +515,8 @@ def check_C06(tier, seed, replay=None):
                          "operator tree vs the engine's result for abs, sqrt, unary minus, clamp, clamp_min, clamp_max (literals incl. NaN, +-Inf, "
                          "max < min), vector/scalar arithmetic and comparisons (both sides, bool) and scalar() over selectors; primitive floats",
                          40, 400, shards_quick=8, shards_thorough=32)
+    # the operator trees of C06_pinned_subtree_is_evaluated_once (step-invariant subtrees, @ on selectors)
+    corr = _corr_multi(corr, corr_core("C06", ("tree",)))
     return ref_family_check("C06", tier, seed, [("func", 4000), ("epoch:func", 600), ("hist", 500)], [("func", 80000), ("deep", 20000), ("epoch:func", 15000), ("hist", 10000)], corr=corr)
 
 
